@@ -179,12 +179,14 @@ def main():
     level = PM.META.get(pid, {}).get("category", "proof")
     if obligations == 0 and level == "proof":
         level = "model_checking"   # nothing but bounded stand-ins ran: never report that as proof
+    explanation = PM.META.get(pid, {}).get("text", "")
     ev = {
         "property_id": pid, "tier": tier, "seed": seed, "level": level,
         "coverage": {
             "obligations": obligations, "discharged": discharged,
             "bounded_obligations": bounded_obl, "bounded_obligations_held": bounded_ok,
-            "evaluations": obligations + bounded_obl, "distinct_nontrivial": len(distinct),
+            "evaluations": obligations + bounded_obl, "distinct_nontrivial": max(len(distinct), 0),
+            "explanation": explanation,
             "rule": "one evaluation = one verification condition decided by CBMC for all inputs of its unit (unbounded units count under obligations/discharged, "
                     "bounded stand-ins under bounded_obligations); distinct = distinct (harness, function, obligation text)",
             "checker_cmd": "; ".join(sorted(set(c.split(" --json-ui")[0] for c in cmds)))[:1500] or "static facts only",
@@ -202,8 +204,12 @@ def main():
         "violations": new_viol,
     }
     os.makedirs(os.path.join(VERIF, "evidence"), exist_ok=True)
-    with open(os.path.join(VERIF, "evidence", "%s.json" % pid), "w") as f:
-        json.dump(ev, f, indent=1)
+    if a.unit:
+        # a developer run restricted to some units (--unit) is not the registered check: it must not replace the evidence of the full one
+        print("(--unit run: evidence/%s.json left untouched)" % pid)
+    else:
+        with open(os.path.join(VERIF, "evidence", "%s.json" % pid), "w") as f:
+            json.dump(ev, f, indent=1)
     print("%s tier=%s units=%d obligations=%d discharged=%d bounded_units=%d undecided=%d violations=%d wall=%.0fs"
           % (pid, tier, len(results) + len(static_results), obligations, discharged, len(bounded), len(undecided), new_viol, time.time() - t0))
     sys.exit(rc)
